@@ -171,6 +171,6 @@ func verifC16Confinement(maxLen int) {
 // verif:cover VerifC16Confinement imported rejected read-attempt no-module-root-import
 func VerifC16Confinement() { verifC16Confinement(4) }
 
-// verif:bound VerifC16ConfinementThorough as VerifC16Confinement with Q of 1..6 characters
+// verif:bound VerifC16ConfinementThorough as VerifC16Confinement with Q of 1..7 characters
 // verif:cover VerifC16ConfinementThorough imported rejected read-attempt no-module-root-import
-func VerifC16ConfinementThorough() { verifC16Confinement(6) }
+func VerifC16ConfinementThorough() { verifC16Confinement(7) }
